@@ -53,21 +53,21 @@ def make_jobs(tier):
     return jobs
 
 
-def check_write(ctx, res, srv, cache, flavour, side, entry, key, algo, n, tag, chunks, declared, write_op="w_write_all", opts_extra=None):
+def check_write(ctx, res, srv, cache, flavour, side, entry, key, algo, n, tag, chunks, declared, write_op="w_write_all", opts_extra=None, flush_each=False):
     data = ref.gen(n, tag)
     eff = wr.effective_algo(entry, algo)
     opts = dict(opts_extra or {})
     if declared == "correct":
         opts["size"] = n
     rep, trace = wr.do_write(srv, cache, side=side, entry=entry, key=key, algo=algo, n=n, tag=tag, chunks=chunks, opts=opts,
-                             write_op=write_op)
+                             write_op=write_op, flush_each=flush_each)
     res["evals"] += 1
     res["transitions"] += len(trace)
     case = {"flavour": flavour, "side": side, "entry": entry, "key": key if key is None or len(key) < 80 else key[:20] + "...(%d)" % len(key),
             "algo": algo, "n": n, "tag": tag, "chunks": chunks if chunks is None or len(chunks) < 20 else "%d chunks" % len(chunks),
-            "declared": declared, "write_op": write_op}
+            "declared": declared, "write_op": write_op, "flush_after_every_chunk": flush_each}
     base_sig = "write:%s/%s:%s:declared=%s:chunks=%s" % (entry, side, size_class(n), declared, chunk_class(n, chunks))
-    res["distinct"].add(V.h(entry, side, eff, n, tuple(chunks) if chunks else None, declared, key, write_op))
+    res["distinct"].add(V.h(entry, side, eff, n, tuple(chunks) if chunks else None, declared, key, write_op, flush_each))
     cls = classify(rep)
     V.outcome(res, "write:" + cls)
     if "ok" not in rep:
@@ -296,6 +296,14 @@ def worker(ctx, job):
                     check_write(ctx, res, srv, cache, flavour, side, entry, key, algo, n, tag + 1, chunks, declared, write_op="w_write")
                     # ... and through the vectored entry point of Write / AsyncWrite
                     check_write(ctx, res, srv, cache, flavour, side, entry, key, algo, n, tag + 2, chunks, declared, write_op="w_write_all_vectored")
+                    # ... and with a flush after every chunk, in two and in three chunks
+                    for k_ in (2, 3):
+                        if n >= k_:
+                            ch_ = [n // k_] * (k_ - 1) + [n - (n // k_) * (k_ - 1)]
+                            before_v = len(res["violations"])
+                            check_write(ctx, res, srv, cache, flavour, side, entry, key, algo, n, tag + 2 + k_, ch_, declared, flush_each=True)
+                            for v_ in res["violations"][before_v:]:
+                                v_["sig"] = v_["sig"].replace("write:", "write-with-flushes:", 1)
                 if count % 400 == 0:
                     fsutil.wipe(cache)
     # the same key re-written with explicit entry times that go DOWN (and up again): what is read back is the data of the
